@@ -1965,7 +1965,7 @@ fn run(shard: &Shard, rep: &mut Report) {
         rep.notes.push("unauthenticated by design (not asserted): GET /, GET /api/v1, GET /api/v1/docs, /api/v1/docs/openapi.json, GET /api/v1/sync/connections, GET /api/v1/relay".into());
     }
     rep.notes.extend(notes);
-    rep.inconclusive.extend(harness_errors.into_inner());
+    rep.transient.extend(harness_errors.into_inner());
 }
 
 fn replay(shard: &Shard, sub: &str, case: &Value) -> CheckResult {
